@@ -31,6 +31,21 @@ def main(tier, seed):
     t0 = time.time()
     specs = enumerate_specs(tier)
     results = runner.run_pool(__name__, specs, tier, seed)
+    # E3: the output-size arithmetic shared by every window-based op, for symbolic sizes up to 10^6
+    from .. import lemmas
+    extra_lines, extra_viol = [], 0
+    try:
+        lem, _meta = lemmas.conv_size_lemma(tier)
+    except Exception as e:  # noqa: BLE001
+        lem = {"lemma": "conv output size", "error": repr(e), "queries": 0, "both_unsat": 0, "sat_indices": []}
+    if lem.get("sat_indices") or lem.get("translator_mismatches"):
+        extra_viol = 1
+        path = runner.write_replay(PROP, {"sig": "lemma:conv output size", "module": None, "spec": lem},
+                                   {"label": "lemma", "kind": "smt", "detail": str(lem)})
+        extra_lines += ["VIOLATION property=%s replay=%s" % (PROP, path),
+                        "  E3 lemma 'conv output size = floor((L+2p-d(k-1)-1)/s)+1' has a satisfiable negation: %s" % (lem,)]
+    extra_lines.append("E3 lemma conv output size: %s/%s queries unsat in both solvers (z3 %ss, cvc5 %ss)" % (
+        lem.get("both_unsat"), lem.get("queries"), lem.get("z3_s"), lem.get("cvc5_s")))
     return runner.finish(
         PROP, tier, seed, results, t0,
         bounds={"ops": sorted(cat.REG), "grid": "see vf/opcat_nn.py configs()/illegal_configs() for the tier"},
@@ -39,5 +54,6 @@ def main(tier, seed):
                      "references are index-level definitions written on scalars (vf/opcat_nn.py), cross-checked against torch in the thorough tier",
                      "cpu_ops.epsilon := 0 for log-type ops (guard effects belong to C09)"],
         stubs=["numpy creators inside synapgrad return constant symbolic arrays", "cpu_ops.epsilon := 0 where listed"],
+        extra_cov={"smt_lemma": lem}, extra_lines=extra_lines, extra_violations=extra_viol,
         rule="one configuration = op x shapes x arguments (legal: must be accepted and equal the reference for all "
              "operand values; illegal: must raise)")
